@@ -53,7 +53,7 @@ fn bump(m: &mut BTreeMap<String, u64>, k: &str) { *m.entry(k.to_string()).or_ins
 /// Which properties a violation class belongs to.
 fn properties_of(class: &str, op: &Op) -> Vec<String> {
   let indexed_matrix_write = matches!(op, Op::IdxAssign { .. } | Op::OpAssign { .. });
-  let _ = Op::MapAssign { name: String::new(), key: SV::Empty, e: Expr::Lit(SV::Empty) };
+
   let c04: &[&str] = &["addressed-element-wrong", "frame-violated", "shape-or-kind-changed", "op-assign-arithmetic-wrong", "readback-mismatch"];
   let both: &[&str] = &["torn-write", "missing-rejection", "wrong-rejection"];
   let mut out = vec![];
